@@ -99,6 +99,21 @@ Theorem C13_distributed_along_every_history :
 Proof. exact distributed_along_every_history. Qed.
 Print Assumptions C13_distributed_along_every_history.
 
+(** … and along EVERY history from EVERY state — counters consistent, behind, or AHEAD of the epoch number — every
+    minting day-epoch end moves the period by the test ON THE INTEGERS (e - EPP*period - skipped >= EPP): while the
+    counters are ahead the period does not advance until the epoch number has caught up; the skipped counter is
+    untouched.  (Evaluated on every implementation trace.) *)
+Theorem C13_integer_rollover_along_every_history :
+  forall (zp : bool) (ops : list op) (s : st),
+    P_roll (s_params s) (s_module s) (peek (s_period s)) (peek (s_skipped s)) (combine ops (snd (run zp s ops))).
+Proof. exact roll_along_every_history. Qed.
+Print Assumptions C13_integer_rollover_along_every_history.
+
+Theorem C13_rollover_checker_sound :
+  forall tr p m0 per sk, Pb_roll p m0 per sk tr = true -> P_roll p m0 per sk tr.
+Proof. exact Pb_roll_sound. Qed.
+Print Assumptions C13_rollover_checker_sound.
+
 (** The roll-over test on uint64 / int64 is the integer comparison when nothing exceeds 2^62. *)
 Theorem C13_rollover_test_without_wraparound :
   forall e E per k : Z,
